@@ -332,7 +332,12 @@ func (g *gen) allotPortions() []J {
 	if g.cfg.unspecified && r.Intn(12) == 0 {
 		// portions above one next to `remaining` (remaining first or last): cannot add up to one
 		over := []J{ePortion(3, 2), ePortion(1, 2)}
-		switch r.Intn(3) {
+		switch r.Intn(5) {
+		case 3:
+			// `remaining` written twice (the grammar allows it): what it means is left open, that nothing crashes is not
+			return []J{eRemaining(), ePortion(1, 2), eRemaining()}
+		case 4:
+			return []J{ePortion(1, 3), eRemaining(), eRemaining()}
 		case 0:
 			return append([]J{eRemaining()}, over...)
 		case 1:
